@@ -99,6 +99,17 @@ CHECKS = {
           "feedback signal; a truncated tail does not damage earlier records) — validated end to end in the thorough tier only; kill "
           "points are event-driven, not instruction-level.",
  },
+ "C01": {
+  "text": "Theorems over a transition system of the pipeline (reactor queue, three stages, finisher; events = accept / hand-over with an "
+          "arbitrarily transformed tree / finisher decision), for every event sequence, i.e. every interleaving and site behaviour: each "
+          "id is in flight at most once; accepted = in flight + reported back (conservation: never dropped, never reported twice); when "
+          "drained every accepted seed was reported exactly once; a seed is acknowledged only when no node of its tree is pending. Facts: "
+          "stage wiring, each worker forwards every seed once, the finisher's three exits and the unconditional notification. The real "
+          "reactor + finisher goroutines are run on random trees over several passes and compared with the model; whole crawls against a "
+          "scripted origin with a fake crawl HQ are judged for exactly-once acknowledgement after the last request of the tree.",
+  "note": COMMON_NOTE + "Liveness (every seed eventually leaves the pipeline) is observed, not proved. Channel hand-over is assumed atomic. "
+          "The model's stages transform trees arbitrarily, so stage bugs that corrupt a tree are C11/C05/C06's, not C01's.",
+ },
  "C05": {
   "text": "Theorem over the stage model for every seed tree, configuration, normaliser and seen-store: each node preprocess attaches a "
           "request to (seed, redirect target or asset) was accepted by the URL normaliser and passes the include / exclude / regex "
